@@ -132,7 +132,26 @@ fn gcd_minors<const R: usize, const C: usize, const K: usize>(m: &[[isize; C]; R
 }
 
 fn diag_body<const R: usize, const C: usize, const E: isize, const K: usize>(reach: bool) {
-    let m = sym_matrix::<R, C>(E);
+    diag_body_ut::<R, C, E, K, false>(reach)
+}
+
+/// UT = true: upper-triangular input (entries below the diagonal are the constant 0), which keeps the
+/// first row-clearing pass trivial and lets larger entries through (seeded change C14-mut2 needs |x| <= 6)
+fn diag_body_ut<const R: usize, const C: usize, const E: isize, const K: usize, const UT: bool>(reach: bool) {
+    let mut m = sym_matrix::<R, C>(E);
+    if UT {
+        let mut i = 0;
+        while i < R {
+            let mut j = 0;
+            while j < C {
+                if j < i {
+                    m[i][j] = 0;
+                }
+                j += 1;
+            }
+            i += 1;
+        }
+    }
     let mut v = to_vecs(&m);
     diagonalize_in_place(&mut v);
     assert!(v.len() == R, "C14.diag.rows_kept");
@@ -423,32 +442,33 @@ macro_rules! proofs {
     )*};
 }
 
-// @harness c14_gcdx_a12 tier=quick unwind=8 block=64 mem=3 timeout=904
-// @harness c14_gcdx_a12_reach tier=quick unwind=8 block=64 mem=3 timeout=900 twin
+// @harness c14_gcdx_a12 tier=quick unwind=8 block=64 mem=8 timeout=1200
+// @harness c14_gcdx_a12_reach tier=quick unwind=8 block=64 mem=8 timeout=1200 twin
 // @harness c14_gcdx_a40 tier=thorough unwind=11 block=64 mem=8 timeout=3000
-// @harness c14_diag_1x2_e3 tier=quick unwind=6 block=64 mem=9 timeout=900
-// @harness c14_diag_2x1_e3 tier=quick unwind=6 block=64 mem=3 timeout=900
-// @harness c14_diag_2x2_e2 tier=quick unwind=7 block=64 mem=34 timeout=2400
-// @harness c14_diag_2x2_e2_reach tier=quick unwind=7 block=64 mem=19 timeout=900 twin
+// @harness c14_diag_1x2_e3 tier=quick unwind=6 block=64 mem=11 timeout=1200
+// @harness c14_diag_2x1_e3 tier=quick unwind=6 block=64 mem=8 timeout=1200
+// @harness c14_diag_2x2_e2 tier=quick unwind=7 block=64 mem=35 timeout=3600
+// @harness c14_diag_2x2_e2_reach tier=quick unwind=7 block=64 mem=25 timeout=1200 twin
 // @harness c14_diag_2x2_e3 tier=thorough unwind=8 block=64 mem=44 timeout=3600 stretch
-// @harness c14_diag_2x2_e6 tier=thorough unwind=9 block=64 mem=48 timeout=3600 stretch
+// @harness c14_diag_2x2_ut_e6 tier=thorough unwind=11 block=64 mem=46 timeout=3600 stretch
+// @harness c14_diag_2x2_e6 tier=thorough unwind=11 block=64 mem=48 timeout=3600 stretch
 // @harness c14_abinv_diag3_e3 tier=thorough unwind=9 block=256 small=64 mem=48 timeout=3600 stretch
 // @harness c14_abinv_diag3_e5 tier=thorough unwind=13 block=256 small=64 mem=48 timeout=3600 stretch
 // @harness c14_diag_2x3_e2 tier=thorough unwind=8 block=64 mem=44 timeout=3600 stretch
 // @harness c14_diag_3x2_e2 tier=thorough unwind=8 block=64 mem=44 timeout=3600 stretch
-// @harness c14_relvec_sums_n2_l3 tier=quick unwind=7 block=256 mem=3 timeout=900
-// @harness c14_relvec_sums_n2_l3_reach tier=quick unwind=7 block=256 mem=2 timeout=900 twin
-// @harness c14_relvec_inverse_n2_l2 tier=quick unwind=7 block=256 mem=5 timeout=900
-// @harness c14_relvec_conj_n2_l2 tier=quick unwind=7 block=256 small=64 mem=22 timeout=2704
-// @harness c14_relvec_product_n2_l2 tier=quick unwind=7 block=256 small=64 mem=14 timeout=1484
-// @harness c14_relvec_rotation_n2_l2 tier=quick unwind=7 block=256 mem=5 timeout=900
-// @harness c14_relvec_rotation_n2_l2_reach tier=quick unwind=7 block=256 mem=3 timeout=900 twin
+// @harness c14_relvec_sums_n2_l3 tier=quick unwind=7 block=256 mem=8 timeout=1200
+// @harness c14_relvec_sums_n2_l3_reach tier=quick unwind=7 block=256 mem=8 timeout=1200 twin
+// @harness c14_relvec_inverse_n2_l2 tier=quick unwind=7 block=256 mem=8 timeout=1200
+// @harness c14_relvec_conj_n2_l2 tier=quick unwind=7 block=256 small=64 mem=28 timeout=3380
+// @harness c14_relvec_product_n2_l2 tier=quick unwind=7 block=256 small=64 mem=17 timeout=1850
+// @harness c14_relvec_rotation_n2_l2 tier=quick unwind=7 block=256 mem=8 timeout=1200
+// @harness c14_relvec_rotation_n2_l2_reach tier=quick unwind=7 block=256 mem=8 timeout=1200 twin
 // @harness c14_relvec_conj_n2_l3 tier=thorough unwind=9 block=256 small=64 mem=40 timeout=3600 stretch
 // @harness c14_relvec_product_n3_l3 tier=thorough unwind=9 block=256 small=64 mem=40 timeout=3600 stretch
-// @harness c14_abinv_degenerate tier=quick unwind=6 block=64 mem=2 timeout=900
-// @harness c14_abinv_degenerate_reach tier=quick unwind=6 block=64 mem=2 timeout=900 twin
-// @harness c14_abinv_r1_n1_l3 tier=quick unwind=5 block=256 small=64 mem=3 timeout=900
-// @harness c14_abinv_r1_n2_l2 tier=quick unwind=5 block=256 small=64 mem=11 timeout=1503
+// @harness c14_abinv_degenerate tier=quick unwind=6 block=64 mem=8 timeout=1200
+// @harness c14_abinv_degenerate_reach tier=quick unwind=6 block=64 mem=8 timeout=1200 twin
+// @harness c14_abinv_r1_n1_l3 tier=quick unwind=5 block=256 small=64 mem=8 timeout=1200
+// @harness c14_abinv_r1_n2_l2 tier=quick unwind=5 block=256 small=64 mem=14 timeout=1879
 // @harness c14_abinv_r1_n2_l2_reach tier=quick unwind=5 block=256 small=64 mem=12 timeout=1800 twin
 // @harness c14_abinv_r2_n1_l2 tier=thorough unwind=7 block=256 small=64 mem=30 timeout=3600
 // @harness c14_abinv_r2_n2_l2 tier=thorough unwind=8 block=256 small=64 mem=44 timeout=3600 stretch
@@ -461,6 +481,7 @@ proofs! {
     c14_diag_2x2_e2 => diag_body::<2, 2, 2, 5>(false);
     c14_diag_2x2_e2_reach => diag_body::<2, 2, 2, 5>(true);
     c14_diag_2x2_e3 => diag_body::<2, 2, 3, 6>(false);
+    c14_diag_2x2_ut_e6 => diag_body_ut::<2, 2, 6, 9, true>(false);
     c14_diag_2x2_e6 => diag_body::<2, 2, 6, 9>(false);
     c14_abinv_diag3_e3 => abinv_diag3_body::<3, 7>(false);
     c14_abinv_diag3_e5 => abinv_diag3_body::<5, 11>(false);
